@@ -363,6 +363,7 @@ impl<W: std::io::Write + std::io::Seek, E: crate::byteorder::Endianness> std::io
 
         // encode as many FLAC frames as possible (which may be 0)
         let mut encoded_frames = 0;
+        let mut result = Ok(());
         for buf in self
             .buf
             .make_contiguous()
@@ -374,14 +375,22 @@ impl<W: std::io::Write + std::io::Seek, E: crate::byteorder::Endianness> std::io
             // update MD5 sum with little-endian bytes
             self.encoder.md5.consume(&buf);
 
-            // encode fresh FLAC frame
-            self.encoder
-                .encode(self.frame.fill_from_buf::<LittleEndian>(buf))?;
-
+            // this frame's bytes have been converted in place,
+            // so they must leave the buffer even if encoding fails
             encoded_frames += 1;
+
+            // encode fresh FLAC frame
+            result = self
+                .encoder
+                .encode(self.frame.fill_from_buf::<LittleEndian>(buf));
+
+            if result.is_err() {
+                break;
+            }
         }
         // TODO - use truncate_front whenever that stabilizes
         self.buf.drain(0..self.frame_byte_size * encoded_frames);
+        result?;
 
         // indicate whole buffer's been consumed
         Ok(buf.len())
